@@ -43,6 +43,8 @@ fn main() {
             "lex" => lang::lex(&case),
             "internsched" => lang::intern_schedule(&case),
             "projhist" => proj::history(&case),
+            "analyse" => proj::analyse(&case),
+            "query" => proj::query(&case),
             "libhist" => root::library_history(&case),
             "makeuse" => root::make_use_of(&case),
             "reset" => root::reset(&case),
